@@ -225,7 +225,7 @@ fn run_line(nums: &[u64]) -> Vec<u64> {
     let mut paths: Vec<String> = Vec::new();
     let mut ops: Vec<Op> = Vec::new();
     let mut valid = true;
-    let mut text = |c: &mut Cur, valid: &mut bool| -> String {
+    let text = |c: &mut Cur, valid: &mut bool| -> String {
         let b = c.take_lp();
         if valid_text(&b) {
             to_string(&b)
